@@ -304,11 +304,48 @@ class PlanJoinTablesQuery:
                     filters.append(cond)
         return filters
 
-    def check_use_limit(self, query_in, join_sequence):
+    def is_where_applied_to_first_table(self, query, join_sequence):
+        # every top-level conjunct of 'where' has to be a filter of the first table or an argument of a model
+        used = set()
+        if 'or' not in self.query_context['binary_ops']:
+            for cond in self.get_table_filters(join_sequence[0]):
+                used.add(id(cond._orig_node))
+        for item in join_sequence:
+            if isinstance(item, TableInfo) and item.predictor_info is not None:
+                for cond in item.conditions:
+                    if self.is_model_argument(item, cond):
+                        used.add(id(cond._orig_node))
+
+        for node in self.get_conjuncts(query.where):
+            if id(node) not in used:
+                return False
+        return True
+
+    def check_use_limit(self, query_in, join_sequence, query):
         # use limit for first table?
         # if only models
         use_limit = False
-        if query_in.having is None or query_in.group_by is None and query_in.limit is not None:
+
+        def _find_functions(node, **kwargs):
+            if isinstance(node, (ast.Function, ast.WindowFunction)):
+                functions.append(node)
+
+        # a function in targets can be an aggregate function
+        functions = []
+        query_traversal(query_in.targets, _find_functions)
+
+        first_table = join_sequence[0]
+        if (
+                query_in.limit is not None
+                and query_in.group_by is None
+                and query_in.having is None
+                and not query_in.distinct
+                and len(functions) == 0
+                # the rows of the joined result have to begin with the rows of the first table
+                and first_table.predictor_info is None and first_table.sub_select is None
+                # the rest of the rows of the table must not be needed: nothing is filtered after the join
+                and self.is_where_applied_to_first_table(query, join_sequence)
+        ):
 
             join = None
             use_limit = True
@@ -371,7 +408,7 @@ class PlanJoinTablesQuery:
         if len(join_sequence) == 3 and join_sequence[0].predictor_info is not None:
             join_sequence = [join_sequence[1], join_sequence[0], join_sequence[2]]
 
-        self.check_use_limit(query_in, join_sequence)
+        self.check_use_limit(query_in, join_sequence, query)
 
         # create plan
         # TODO add optimization: one integration without predictor
@@ -581,6 +618,20 @@ class PlanJoinTablesQuery:
 
         return conditions
 
+    def is_model_argument(self, item, cond):
+        # condition 'column = value' for a model is its input, unless column is the target of prediction
+        if not (isinstance(cond.args[0], Identifier) and cond.op == '='):
+            return False
+
+        predict_target = item.predictor_info.get('to_predict')
+        if isinstance(predict_target, list) and len(predict_target) > 0:
+            predict_target = predict_target[0]
+        if predict_target is not None:
+            predict_target = predict_target.lower()
+
+        col_name = cond.args[0].parts[-1]
+        return col_name.lower() != predict_target
+
     def process_predictor(self, item, query_in):
         if len(self.step_stack) == 0:
             raise NotImplementedError("Predictor can't be first element of join syntax")
@@ -589,12 +640,6 @@ class PlanJoinTablesQuery:
         data_step = self.step_stack[-1]
         row_dict = None
 
-        predict_target = item.predictor_info.get('to_predict')
-        if isinstance(predict_target, list) and len(predict_target) > 0:
-            predict_target = predict_target[0]
-        if predict_target is not None:
-            predict_target = predict_target.lower()
-
         columns_map = None
         if item.join_condition:
             columns_map = self.join_condition_to_columns_map(item)
@@ -602,12 +647,8 @@ class PlanJoinTablesQuery:
         if item.conditions:
             row_dict = {}
             for i, el in enumerate(item.conditions):
-                if isinstance(el.args[0], Identifier) and el.op == '=':
-                    col_name = el.args[0].parts[-1]
-                    if col_name.lower() == predict_target:
-                        # don't add predict target to parameters
-                        continue
-
+                # don't add predict target to parameters
+                if self.is_model_argument(item, el):
                     if isinstance(el.args[1], (Constant, Parameter)):
                         row_dict[el.args[0].parts[-1]] = el.args[1].value
 
